@@ -1059,14 +1059,10 @@ Qed.
 (** ---- the loops of parseObjectList, carrying an invariant [LI] of the object boundaries ---- *)
 Section Loops.
 Variable LI : pstate -> ghost -> Prop.
-(** a property of the pool that parseNextObject keeps (partial correctness) *)
-Variable TP : T -> Prop.
-Hypothesis TP_next : forall fuel s a s', parseNextObject fuel s = Ok (a, s') -> TP (p_tree s) -> TP (p_tree s').
 Hypothesis LI_next : forall s g top rest s' g',
   FI s g -> LI s g -> p_scopeStack s = top :: rest -> FI s' g' -> gext g g' ->
   Fw NoP (eq top) s g s' g' -> SSBx s s' -> p_handle s' = p_handle s ->
   (exists xs, newobjs g s' xs /\ forall x, xs = Some x -> ~ glive g x /\ xdesc s g s' g' top x) ->
-  (TP (p_tree s) -> TP (p_tree s')) ->
   LI s' g'.
 Hypothesis LI_stable : forall s s' g, LI s g -> p_tree s' = p_tree s -> p_handle s' = p_handle s ->
   (forall y, In y (p_scopeStack s') -> In y (p_scopeStack s)) -> LI s' g.
@@ -1080,14 +1076,13 @@ Proof.
   apply wp_bind, wp_get. destruct (eof (p_r s)).
   { apply wp_ret. exists g. split; auto. split; [apply Ext_refl|]. split; [lia|]. split; [intros _; lia|]. split; [exact Hst|intros _; exact HL]. }
   destruct (p_scopeStack s) as [|top rest] eqn:Est; [contradiction|].
-  apply wp_bind. eapply wp_weaken; [apply (wp_and_pc _ _ _ _ (fun _ s1 => TP (p_tree s) -> TP (p_tree s1)) (T_next_all fuel s g top rest H Est Hroom))|auto|].
-  { intros a s1 E. apply (TP_next fuel s a s1 E). }
-  intros res s1 ((g1 & H1 & E1 & P1 & P2 & F1 & S1 & Hh1 & N1) & Hnf1).
+  apply wp_bind. eapply wp_weaken; [apply (T_next_all fuel s g top rest H Est Hroom)|auto|].
+  intros res s1 (g1 & H1 & E1 & P1 & P2 & F1 & S1 & Hh1 & N1).
   assert (Hst1 : p_scopeStack s1 <> []).
   { destruct (ex_scopes _ _ _ _ E1) as (e & Es). rewrite Es, Est. intros E. apply app_eq_nil in E. destruct E as (_ & E). discriminate. }
   destruct (pres_eqb res ROk) eqn:Eres.
   - assert (res = ROk) by (destruct res; try discriminate; reflexivity). subst res. destruct (P2 eq_refl) as (P3 & P4).
-    assert (HL1 : LI s1 g1) by (apply (LI_next s g top rest s1 g1 H HL Est H1 (ex_g _ _ _ _ E1) F1 S1 Hh1 (N1 eq_refl) Hnf1)).
+    assert (HL1 : LI s1 g1) by (apply (LI_next s g top rest s1 g1 H HL Est H1 (ex_g _ _ _ _ E1) F1 S1 Hh1 (N1 eq_refl))).
     eapply wp_weaken; [apply (IH s1 g1 H1 Hst1)|auto|].
     + unfold room in *. lia.
     + exact HL1.
